@@ -22,9 +22,8 @@ the supply of fresh ids.  Strings are `List Char` (as in the units model).  Floa
 IEEE bit patterns (`Nat`) because C10 is about storing and returning values unchanged (NaN payloads,
 signed zero, infinities); no arithmetic is done on them.
 
-The one error the real code raises *after* it already changed the dataset (an embedded NUL refused
-by h5py's vlen-string conversion, after the resize) is modelled with the changed state, exactly as
-the code behaves.
+Every refusal of the code precedes the first change of the dataset (type check, NUL test of text
+values, conversion — then resize and write), so every error leaves the state untouched.
 -/
 namespace Nix.PropVals
 open Nix.Units (Str)
@@ -153,7 +152,8 @@ def convertAll (d : DType) : List PyVal → Except Err (List Cell)
       | .error e => .error e
       | .ok cs => .ok (c :: cs)
 
-/-- h5py refuses a vlen string with an embedded NUL (`ValueError`) -/
+/-- `"\x00" in val` of `_check_text_storable` (`property.py`): an HDF5 variable-length string ends at
+the first NUL, so a text containing one — anywhere, also at its end — is refused (`ValueError`) -/
 def Cell.hasNul : Cell → Bool
   | .s v => v.any (· == Char.ofNat 0)
   | _ => false
@@ -204,24 +204,9 @@ def shapeSize : List Nat → Nat
   | [] => 1
   | n :: ns => n * shapeSize ns
 
-/-- text inside the model: not ending in NUL characters (numpy's fixed-width unicode conversion
-`np.array(vals, dtype=str)` silently drops trailing NULs — such text is outside the model) -/
-def PyVal.WF : PyVal → Bool
-  | .pyStr s | .npStr s => s.getLast? != some (Char.ofNat 0)
-  | _ => true
-
-/-- a numpy integer handed in *as a bare scalar* must fit int64: `np.array(np.uint64(2**64-1),
-dtype=int64)` (0-d, what `extend_values(scalar)` builds) wraps around silently, whereas the same
-value inside a list raises OverflowError (modelled) — the bare scalar is outside the model -/
-def PyVal.scalarOk : PyVal → Bool
-  | .npInt i => decide (int64Min ≤ i) && decide (i ≤ int64Max)
-  | _ => true
-
-/-- well-formed input: text as above; bare numpy integers as above; an array has as many elements
-as the shape says, each fitting the dtype -/
+/-- well-formed input: an array has as many elements as the shape says, each fitting the dtype
+(every scalar and every list is an input the model speaks about) -/
 def Input.WF : Input → Bool
-  | .scalar v => v.WF && v.scalarOk
-  | .list vs => vs.all PyVal.WF
   | .ndarray dt shape data =>
     data.length == shapeSize shape &&
     match dt with
@@ -302,9 +287,9 @@ def checkNewValueTypes (pd : DType) (inp : Input) : Except Err Unit :=
 
 def PropRec.clear (p : PropRec) : PropRec := { p with vals := [] }
 
-/-- after the check passed: convert (`np.array(vals, dtype=vtype)`), resize to `n`, write
-(`property.py:278-283`).  The conversion precedes the resize; h5py's refusal of an embedded NUL
-comes after it. -/
+/-- after the check passed: refuse text containing NUL, convert (`np.array(vals, dtype=vtype)`),
+resize to `n`, write.  Everything that can refuse precedes the resize.  (The NUL test runs before
+the conversion in the code; for text the conversion cannot fail, so the order is not observable.) -/
 def assignList (p : PropRec) (vs : List PyVal) : PropRec × Except Err Unit :=
   match checkNewValueTypes p.dtype (.list vs) with
   | .error e => (p, .error e)
@@ -312,8 +297,7 @@ def assignList (p : PropRec) (vs : List PyVal) : PropRec × Except Err Unit :=
     match convertAll p.dtype vs with
     | .error e => (p, .error e)
     | .ok cells =>
-      if cells.any Cell.hasNul then
-        ({ p with vals := resize p.dtype p.vals vs.length }, .error .valueError)
+      if cells.any Cell.hasNul then (p, .error .valueError)
       else ({ p with vals := cells }, .ok ())
 
 /-- the `values` setter (`property.py:259-280`) -/
@@ -343,7 +327,8 @@ def inputCells (d : DType) : Input → Except Err (List Cell)
   | .ndarray _ _ data => .ok data
   | other => convertAll d [other.asElem]
 
-/-- `extend_values` (`property.py:282-294`): check, convert, resize, write the tail -/
+/-- `extend_values`: check, (a single value becomes a one-element list,) refuse text containing NUL,
+convert, resize, write the tail -/
 def extendValues (p : PropRec) (inp : Input) : PropRec × Except Err Unit :=
   match checkNewValueTypes p.dtype inp with
   | .error e => (p, .error e)
@@ -351,8 +336,7 @@ def extendValues (p : PropRec) (inp : Input) : PropRec × Except Err Unit :=
     match inputCells p.dtype inp with
     | .error e => (p, .error e)
     | .ok cells =>
-      if cells.any Cell.hasNul then
-        ({ p with vals := p.vals ++ List.replicate cells.length p.dtype.fill }, .error .valueError)
+      if cells.any Cell.hasNul then (p, .error .valueError)
       else ({ p with vals := p.vals ++ cells }, .ok ())
 
 /-! ## optional attributes -/
